@@ -1283,6 +1283,21 @@ pub fn g_consts(o: &mut Out) {
                     o.put(&format!("limit-numeral/{}", ty), format!("parse_str {} {}", ty, tx(&format!("-{}", s))));
                     let s1 = format!("1e{}", base + d);
                     o.put(&format!("limit-numeral/{}", ty), format!("parse_str {} {}", ty, tx(&s1)));
+                    // every spelling of the exponent, through both entry points: the limit must not depend on it
+                    let x = base + d;
+                    let (sg, mag) = if x < 0 { ("-", -x) } else { ("", x) };
+                    let mut spellings = vec![format!("E{}{}", sg, mag), format!("e{}0{}", sg, mag), format!("E{}000{}", sg, mag)];
+                    if x >= 0 {
+                        spellings.extend([format!("e+{}", mag), format!("E+{}", mag), format!("e+00{}", mag)]);
+                    }
+                    let cap = text_cap(ty).map_or("-".to_string(), |c| c.to_string());
+                    for sp in spellings {
+                        for sign in ["", "-", "+"] {
+                            let t = format!("{}{}{}", sign, digit.repeat(f.p()), sp);
+                            o.put(&format!("limit-spelling/{}", ty), format!("parse_str {} {}", ty, tx(&t)));
+                            o.put(&format!("limit-spelling-fmt/{}", ty), format!("parse_fmt {} {} {} -", ty, cap, tx(&t)));
+                        }
+                    }
                 }
             }
         }
